@@ -30,6 +30,14 @@ def load_known_findings():
         return json.load(f)
 
 
+def load_dead_baseline():
+    path = os.path.join(HERE, "contracts", "baseline_dead_paths.json")
+    if os.path.exists(path):
+        with open(path) as f:
+            return json.load(f)
+    return {}
+
+
 def load_baseline():
     path = os.path.join(HERE, "contracts", "baseline_obligations.json")
     if not os.path.exists(path):
@@ -98,11 +106,19 @@ def _prepare(fid, kf_entries):
     return (fid, vc, info, items)
 
 
+PATHSCAN = -1000000
+
+
 def _solve_one(job):
     fi, oi, rlimit, both = job
-    from pyvc.verify import check_obligation, check_cover, run_cvc5
+    from pyvc.verify import check_obligation, check_cover, run_cvc5, check_paths
     import z3
     fid, vc, info, items = _PREP[fi]
+    if oi == PATHSCAN:
+        res = check_paths(vc, info["paths"])
+        dead = sorted(set("%s:%d:%d" % (p["function"], p["line"], p["branch"]) for p in info["paths"]
+                          if res.get(p["name"]) == "dead"))
+        return (fi, oi, {"paths": len(info["paths"]), "dead": dead})
     if oi < 0:
         name, pcs = info["covers"][-oi - 1]
         return (fi, oi, {"cover": name, "result": check_cover(vc, pcs)})
@@ -289,6 +305,8 @@ def run_check(prop, args, seed, t0):
             sjobs.append((fi, oi, rlimit, tier == "thorough"))
         for ci in range(len(info.get("covers", []))):
             sjobs.append((fi, -ci - 1, rlimit, False))
+        if info.get("paths"):
+            sjobs.append((fi, PATHSCAN, rlimit, False))
     bfids = [f for f in cfg.get("bounded", [])]
     bjobs = [(f, tier, seed, regions_by_fid.get(f)) for f in bfids]
     has_bounded = os.path.exists(os.path.join(HERE, "harness", "b_%s.py" % prop.lower())) \
@@ -320,21 +338,27 @@ def run_check(prop, args, seed, t0):
     for fi, (fid, vc, info, items) in enumerate(_PREP):
         obls = [None] * len(items)
         covers = []
+        pathscan = None
         for (f2, oi, rec) in sres:
             if f2 != fi:
                 continue
             if oi >= 0:
                 obls[oi] = rec
+            elif oi == PATHSCAN:
+                pathscan = rec
             else:
                 covers.append((rec["cover"], rec["result"]))
         presults.append({"fid": fid, "status": info["status"], "error": info.get("error"), "sha": info.get("sha"),
-                         "lines": info.get("lines"), "obligations": obls, "covers": covers,
+                         "lines": info.get("lines"), "obligations": obls, "covers": covers, "pathscan": pathscan,
                          "assumptions": sorted(vc.assumptions_used), "trusted": sorted(vc.trusted_used),
                          "inlined": sorted(vc.inlined),
                          "solver_time": round(sum(r.get("solver_time", 0.0) for r in obls), 3),
                          "wall": info.get("symexec_s", 0.0)})
 
     # 3. verdicts
+    dead_now = {}
+    paths_total = {}
+    dead_baseline = load_dead_baseline()
     violations = []     # (oid or clause, replay path, no_input)
     undecided = []
     n_obl = n_dis = 0
@@ -364,6 +388,15 @@ def run_check(prop, args, seed, t0):
         for name, res in r["covers"]:
             if res == "unreachable" and name.startswith(("return-reachable", "premises")):  # 'unknown' is not vacuity
                 undecided.append((r["fid"], "vacuity: %s is %s" % (name, res)))
+        if r.get("pathscan"):
+            dead_now[r["fid"]] = r["pathscan"]["dead"]
+            paths_total[r["fid"]] = r["pathscan"]["paths"]
+            known_dead = set(dead_baseline.get(r["fid"], []))
+            for d in r["pathscan"]["dead"]:
+                if d not in known_dead and not args.update_baseline:
+                    undecided.append((r["fid"], "vacuity guard: path %s (function:line:branch) is unreachable under the "
+                                      "contracts and not in the reviewed list contracts/baseline_dead_paths.json; "
+                                      "obligations on it hold vacuously" % d))
         for ob in r["obligations"]:
             n_obl += 1
             ok = ob["status"] == "discharged"
@@ -466,6 +499,11 @@ def run_check(prop, args, seed, t0):
         undecided += und
 
     if args.update_baseline:
+        dpath = os.path.join(HERE, "contracts", "baseline_dead_paths.json")
+        alld = load_dead_baseline()
+        alld.update(dead_now)
+        with open(dpath, "w") as f:
+            json.dump(alld, f, indent=1, sort_keys=True)
         path = os.path.join(HERE, "contracts", "baseline_obligations.json")
         allb = load_baseline()
         allb[prop] = sorted(discharged_now)
@@ -494,6 +532,8 @@ def run_check(prop, args, seed, t0):
         "functions_under_contract": functions,
         "backends": backend_counts, "solver_time_s": round(solver_time, 3), "rlimit": rlimit,
         "undecided": [{"what": a, "why": b} for a, b in undecided],
+        "vacuity_guard": {"paths_checked": sum(paths_total.values()),
+                          "provably_unreachable_paths (reviewed list: contracts/baseline_dead_paths.json)": dead_now},
         "bounded": bounded,
         "known_findings_printed": [e["id"] for e in active],
         "obligations_proved_outside_known_findings": kf_obligs,
